@@ -8,7 +8,7 @@ Driver for C17. One case =
 `<ann>` = `int|float|str|bool|datetime | (cls i) | (enum i) | (opt typing|unionNone|noneFirst|pipe a) |
 (cont list|set|tuple|sequence|blist|bset|btuple a) | (type a) | (fwd a) | (union a b T|F)`;
 `<op>` = `(q d k) | (acc d c k) | (render d T|F) | (copy d) | (sub d T|F)`.
-Further items (`(future b)`, `(mods n)`, `(enums n)`, `(final b)` = order in which the accessors are read at the end) only steer how the harness renders the Python source.
+Further items (`(future b)`, `(mods n)`, `(enums n)`, `(generic id*)`, `(gsub (id arg)*)` = generic bases, `(twin t)` = further same-named diagrams, `(final b)` = order in which the accessors are read at the end) only steer how the harness renders the Python source.
 
 Observation (the same text is produced from the real `ClassDiagram` by harness/props/c17.py):
 `N[nodes] I[base>sub] A[owner.field>target] F[owner.field:<flags>] V[changes after op 1|…] R[diagrams whose
